@@ -4,7 +4,7 @@ The histories are shared with C08 (harness/walletdrv.py); this check reports the
 (TxWhy / Insufficient): conservation, exact recipients, other outputs to own addresses, distinct unspent confirmed inputs,
 fee sign and rate limits, refusal when funds are insufficient.
 """
-from harness import common, walletdrv
+from harness import common, walletdrv, feebump
 from harness.common import Check, tier
 
 PID = 'C07'
@@ -21,6 +21,11 @@ def run(replay=None):
                       'bumpfee is exercised on not yet broadcast transactions only',
                       'min_confirms does not apply to an explicit input list (documented); every other rule does']
     ck.model(common.model_check('MC_WalletLedger', 'MC_WalletLedger_thorough.cfg' if thorough else 'MC_WalletLedger.cfg', expect_actions=['Next']))
+    if replay and 'feebump' in replay['case']:
+        feebump.run_section(ck, thorough, replay)
+        return ck.finish()
+    if not replay:
+        feebump.run_section(ck, thorough)
     if replay:
         jobs = [tuple(replay['case']['job'][:1]) + (tuple(replay['case']['job'][1]),) + tuple(replay['case']['job'][2:])]
         traces = common.pmap(walletdrv.wallet_history, jobs)
